@@ -22,7 +22,7 @@ TIERS = dict(
     quick=dict(mc=[("SilkPlc_mc_quick.cfg", 8, MC_ACTIONS)], gen="SilkPlcGen_8.cfg", npat=192, per_stream=8, long_every=3,
                fn=(96, 8), nproc=10, chunks=10),
     thorough=dict(mc=[("SilkPlc_mc_quick.cfg", 6, MC_ACTIONS), ("SilkPlc_mc_long.cfg", 8, None), ("SilkPlc_mc_wide.cfg", 8, None)],
-                  gen="SilkPlcGen_8.cfg", npat=None, per_stream=6, long_every=2, fn=(1500, 14), nproc=12, chunks=36, reps=3),
+                  gen="SilkPlcGen_8.cfg", npat=None, per_stream=6, long_every=2, fn=(1000, 14), nproc=12, chunks=36, reps=2),
 )
 # tags the validated traces must have exercised (vacuity guard)
 NEED = {'<<"good", 0>>', '<<"good", 1>>', '<<"good", 2>>', '<<"lost", 0, 0>>', '<<"lost", 0, 1>>', '<<"lost", 0, 2>>',
@@ -230,10 +230,11 @@ def run(ctx):
         r = ctx.mc("SilkPlc_mc", cfg, workers=workers, require_actions=acts, heap="6g")
         if not r.ok:
             raise vf.Infra("SilkPlc_mc/%s: a theorem of the model is violated: %s\n%s" % (cfg, r.violation, (r.state_dump or "")[:1500]))
-    w = vf.tlc("SilkPlc_mc", "SilkPlc_mc_witness.cfg", workers=4, heap="4g")
-    if w.error or w.violation != "TruncationWitness":
-        raise vf.Infra("SilkPlc_mc witness: expected TruncationWitness to be refuted, got %s %s" % (w.violation, w.error))
-    ctx.add_tlc(w, "mc SilkPlc_mc/witness (expected refutation)")
+    if ctx.tier == "thorough":
+        w = vf.tlc("SilkPlc_mc", "SilkPlc_mc_witness.cfg", workers=4, heap="4g")
+        if w.error or w.violation != "TruncationWitness":
+            raise vf.Infra("SilkPlc_mc witness: expected TruncationWitness to be refuted, got %s %s" % (w.violation, w.error))
+        ctx.add_tlc(w, "mc SilkPlc_mc/witness (expected refutation)")
     ctx.notes["theorems"] = ["AttTablesOK", "NonIncreasing", "DecayClause", "FloorReached (72 frames)", "Ranges", "PitchMonotone", "Collapse", "CngOnlyInactive",
                              "CngSeedOnlyLoss", "CngGainRange", "GlueRamp", "GlueGridOK", "CngAddGridOK", "LflIffLoss (DecOp's invariant)", "GlueClears",
                              "SetFsEffect", "LazyResets", "RandN = RandIter"]
